@@ -132,12 +132,13 @@ marker, market nor group-policy accounts. -/
 def moduleOrContractLike (a : Acct) : Bool :=
   a.present && !a.seqNonZero && !a.isMarker && !a.isMarket && !a.isGroup
 
-/-- 11_authorization.md: the stored grant covers this use. -/
+/-- 11_authorization.md: the stored grant covers this use — an amount of coin (never negative)
+within what is left of the limit, to a recipient the allow list admits. -/
 def grantCovers (stored : Option Grant) (u : Use) : Bool :=
   match stored with
   | none => false
   | some g =>
-    Coins.nonneg (Coins.sub g.limit [(u.denom, u.amount)])
+    decide (0 ≤ u.amount) && Coins.nonneg (Coins.sub g.limit [(u.denom, u.amount)])
       && (g.allow.isEmpty || g.allow.contains u.to)
 
 /-- The `MsgTransferRequest` flowchart of 12_transfers.md, node by node, preceded by the
@@ -172,6 +173,30 @@ def WithinLimit (g : Grant) (accepted : List Use) : Prop :=
 /-- "otherwise, the destination must be in the `allow_list`". -/
 def RecipientsAllowed (g : Grant) (accepted : List Use) : Prop :=
   g.allow ≠ [] → ∀ u ∈ accepted, u.to ∈ g.allow
+
+/-- The same with every NEGATIVE amount left out of the sum: what was really moved. (The signed sum
+`moved` would let a negative "use" make room for later ones.) -/
+def movedPos (us : List Use) (d : Denom) : Int :=
+  match us with
+  | [] => 0
+  | u :: rest => (if u.denom = d ∧ 0 < u.amount then u.amount else 0) + movedPos rest d
+
+def WithinLimitPos (g : Grant) (accepted : List Use) : Prop :=
+  ∀ d, movedPos accepted d ≤ Coins.amountOf g.limit d
+
+/-! ## Histories of messages on one marker -/
+
+/-- The credential documented for changing the access list, read off the marker's state `s` for the
+signer `b` IN THE STATUS THE MARKER HAS THEN: the manager while the marker is proposed; manager,
+`admin` or the whole supply while finalized; `admin` or the whole supply once active (the manager
+is gone); nobody afterwards. -/
+def accessCred (s : MState) (b : String) : Bool :=
+  match s.status with
+  | .proposed => s.manager == some b
+  | .finalized => s.manager == some b || (s.rightsOf b).contains .admin
+      || holdsWholeSupply (s.balOf b) s.circulating
+  | .active => (s.rightsOf b).contains .admin || holdsWholeSupply (s.balOf b) s.circulating
+  | _ => false
 
 /-- executable versions for the checker -/
 def recipientAllowed (g : Grant) (to : String) : Bool := g.allow.isEmpty || g.allow.contains to
